@@ -8,7 +8,7 @@ from py_gql import build_schema, graphql_blocking, process_graphql_query
 from py_gql.execution import Executor
 from py_gql.lang.parser import parse_value
 from py_gql.schema import (
-    EnumType, InputObjectType, InterfaceType, ListType, NonNullType, ObjectType, ScalarType, UnionType, Argument, Field, Int, String, Schema, EnumValue, InputField,
+    EnumType, InputObjectType, InterfaceType, ListType, NonNullType, ObjectType, ScalarType, UnionType, Argument, Field, ID, Int, String, Schema, EnumValue, InputField,
 )
 from py_gql.schema.introspection import _format_default_value
 from py_gql.utilities import introspection_query, value_from_ast
@@ -322,7 +322,46 @@ def _format_default_kernel(s: str) -> bool:
     return result(ok, len(s) > 0)
 
 
+# ---- several schemas built from the SAME Python type objects: each reports its own content, whatever was asked of the others before
+def shared_world():
+    node = InterfaceType("Node", [Field("id", ID)], description="a node")
+    user = ObjectType("User", [Field("id", ID), Field("name", String)], interfaces=[node])
+    audit = ObjectType("AuditLog", [Field("id", ID), Field("at", Int)], interfaces=[node])
+    robot = ObjectType("Robot", [Field("id", ID)], interfaces=[node])
+    thing = UnionType("Thing", [user, robot])
+    q = ObjectType("Query", [Field("node", node), Field("me", user), Field("thing", thing)])
+    # the same interface object: implemented by {User, Robot} in the first schema, by {User, Robot, AuditLog} in the second, and by the same three in another order in the third
+    return (Schema(q), Schema(q, types=[audit]), Schema(q, types=[audit, robot]))
+
+
+def _shared_types(first: int, second: int, third: int, cfg: int) -> bool:
+    """
+    pre: 0 <= first <= 2 and 0 <= second <= 2 and -1 <= third <= 2 and 0 <= cfg <= 1
+    post: _
+    """
+    order = [concrete_int(first, 0, 2), concrete_int(second, 0, 2)] + ([concrete_int(third, 0, 2)] if third >= 0 else [])
+    C = concrete_int(cfg, 0, 1)
+    with untraced():
+        schemas = shared_world()
+        problem = ""
+        for i in order:
+            schema = schemas[i]
+            res = graphql_blocking(schema, introspection_query()) if C == 0 else process_graphql_query(schema, introspection_query(), executor_cls=Executor)
+            if res.errors:
+                problem = "errors %r" % (res.errors,)
+                break
+            problem = compare(schema, res.data)
+            if problem:
+                problem = "schema %d asked after %r: %s" % (i, order[: order.index(i)], problem)
+                break
+    return result(problem == "", len(set(order)) >= 2)
+
+
 CONDITIONS = [
+    Cond(name="shared_types", fn=_shared_types, quick=60, thorough=60,
+         bound="three schemas built from the SAME type objects (one interface implemented by two / three object types, a union, one extra implementation only known to some schemas) introspected in every order of 2..3 requests, 2 executors: "
+               "each answer equals the reference computed from THAT schema (possible types, interfaces, type list)",
+         symbolic={"first,second,third": "choice: which schema is asked", "cfg": "choice: executor"}, witness={"first": 0, "second": 1, "third": -1, "cfg": 0}),
     Cond(
         name="introspect", fn=_introspect, quick=100, thorough=300, per_path=60, shards_quick=12, shards_thorough=12,
         bound="generator schemas (13 default kinds x 4 recursion patterns x deprecation pattern none / some / every member of a type, descriptions on) and two code-built schemas (enum internal values, defaults of every input kind; every type an instance of a SUBCLASS of the type classes: RegexType, UUID, user subclasses) x 2 executors: "
